@@ -1,4 +1,221 @@
-import PysamlModel.Model.Sp
-import PysamlModel.Spec.Sp
+/-
+  C05 — Assertions are honoured only inside their validity windows plus configured skew.
+  Clocks are unbounded `Int`s, skews unbounded `Nat`s; statements are about the full `Sp.process`.
+-/
+import PysamlModel.Proofs.Sp
+import PysamlModel.Props.C04
+
 namespace C05
+open Sp
+
+/-- All time windows of one accepted assertion hold (Conditions, SessionNotOnOrAfter, every bearer
+    confirmation that is used): not expired, not premature, not inverted. -/
+theorem accepted_timesOk {cfg : Cfg} {env : Env} {rs v : Bool} {st st' : St} {a : Assertion}
+    (h : checkAssertion cfg env rs v st a = .ok st') : timesOk cfg env a = true := by
+  obtain ⟨hacc, st1, st2, e1, e2, e3, _⟩ := checkAssertion_inv h
+  unfold timesOk
+  simp only [Bool.and_eq_true]
+  refine ⟨⟨(conditionOk_facts e2).2.1, ?_⟩, ?_⟩
+  · obtain ⟨s, hs, hsess⟩ := hacc.authn
+    rw [hs]
+    simp only [List.all_cons, List.all_nil, Bool.and_true]
+    cases ht : s.sessionNooa with
+    | none => rfl
+    | some t =>
+      have := hsess t ht
+      simp only [onOrAfterOk, Bool.not_eq_true', decide_eq_false_iff_not] at this
+      simp only [decide_eq_true_eq]; omega
+  · obtain ⟨s, hs, hfacts, _⟩ := getSubject_facts e3
+    rw [hs]
+    apply List.all_eq_true.mpr
+    intro sc hsc
+    cases hus : bearerUsable sc with
+    | false => simp
+    | true =>
+      obtain ⟨d, hd, hexp, hpre, _⟩ := hfacts sc hsc hus
+      simp only [Bool.not_true, Bool.false_or, hd]
+      unfold bearerUsable at hus
+      simp only [hd, Bool.and_eq_true] at hus
+      have hlt := hus.2
+      unfold windowOk
+      cases hnb : d.nb <;> cases hno : d.nooa <;>
+        simp_all [optExpired, optPremature, onOrAfterOk, beforeOk, laterThan] <;> omega
+
+/-- `C05_expired`, `C05_premature`, `C05_inverted` in one statement: identity ⇒ for every visible
+    assertion the current time is not later than NotOnOrAfter + skew, not earlier than NotBefore − skew,
+    and NotOnOrAfter is not earlier than NotBefore — for Conditions, for the bearer confirmation data
+    that is used and for SessionNotOnOrAfter. -/
+theorem C05_windows {cfg : Cfg} {env : Env} {r : Response} {o : Reported}
+    (h : process cfg env r = .identity o) : ∀ a ∈ visible r, timesOk cfg env a = true := by
+  obtain ⟨rs, hacc⟩ := C04.visible_accepted h
+  intro a ha
+  obtain ⟨v, s, s', hs⟩ := hacc a ha
+  exact accepted_timesOk hs
+
+/-- Spelled out for the Conditions element. -/
+theorem C05_expired {cfg : Cfg} {env : Env} {r : Response} {o : Reported}
+    (h : process cfg env r = .identity o) (a : Assertion) (ha : a ∈ visible r) (c : Conditions)
+    (hc : a.conditions = some c) (t : Int) (ht : c.nooa = some t) : env.now ≤ t + cfg.skew := by
+  have := C05_windows h a ha
+  unfold timesOk at this
+  simp only [Bool.and_eq_true, hc, windowOk, ht] at this
+  have h1 := this.1.1.1.1
+  simpa using h1
+
+theorem C05_premature {cfg : Cfg} {env : Env} {r : Response} {o : Reported}
+    (h : process cfg env r = .identity o) (a : Assertion) (ha : a ∈ visible r) (c : Conditions)
+    (hc : a.conditions = some c) (t : Int) (ht : c.nb = some t) : t ≤ env.now + cfg.skew := by
+  have := C05_windows h a ha
+  unfold timesOk at this
+  simp only [Bool.and_eq_true, hc, windowOk, ht] at this
+  have h1 := this.1.1.1.2
+  simpa using h1
+
+theorem C05_inverted {cfg : Cfg} {env : Env} {r : Response} {o : Reported}
+    (h : process cfg env r = .identity o) (a : Assertion) (ha : a ∈ visible r) (c : Conditions)
+    (hc : a.conditions = some c) (b t : Int) (hb : c.nb = some b) (ht : c.nooa = some t) : b ≤ t := by
+  have := C05_windows h a ha
+  unfold timesOk at this
+  simp only [Bool.and_eq_true, hc, windowOk, ht, hb] at this
+  have h1 := this.1.1.2
+  simpa using h1
+
+/-- The Response IssueInstant is at most a day plus skew away from now. -/
+theorem C05_stale_instant {cfg : Cfg} {env : Env} {r : Response} {o : Reported}
+    (h : process cfg env r = .identity o) : issueInstantWithin cfg env r = true := by
+  obtain ⟨_, cf, _, rs, p, _, _, _, hv, _, _, _, _⟩ := process_identity_inv h
+  obtain ⟨henv, _⟩ := verify_some_inv hv
+  obtain ⟨_, _, hii, _⟩ := verifyEnvelope_true_inv henv
+  unfold issueInstantOk at hii
+  unfold issueInstantWithin
+  simp only [Bool.and_eq_true, decide_eq_true_eq] at hii ⊢
+  omega
+
+/-- The expiry reported to the application (single-assertion responses): SessionNotOnOrAfter when
+    present (and positive), otherwise the Conditions NotOnOrAfter. -/
+theorem C05_reported_expiry {cfg : Cfg} {env : Env} {r : Response} {o : Reported} {a : Assertion}
+    (h : process cfg env r = .identity o) (hone : visible r = [a]) :
+    ∃ s, a.authn = [s] ∧
+      o.notOnOrAfter = (match s.sessionNooa with
+        | some t => if t > 0 then t else (match a.conditions.bind (·.nooa) with | some u => u | none => 0)
+        | none => (match a.conditions.bind (·.nooa) with | some u => u | none => 0)) := by
+  obtain ⟨_, cf, _, rs, p, _, _, _, hv, _, _, _, a0, rest, s0, srest, hused, hauthn, ho⟩ := process_identity_inv h
+  obtain ⟨_, hp⟩ := verify_some_inv hv
+  obtain ⟨⟨st1, h1, h2⟩, _, _, hu, _, _⟩ := parseAssertion_inv hp
+  -- exactly one visible assertion: it is either the plain one or the decrypted one
+  have hvis : decOf r ++ plainOf r = [a] := hone
+  -- the final state comes from checking `a` starting in a state with zeroed times
+  have hfinal : ∃ v st0, st0.notOnOrAfter = 0 ∧ st0.sessionNooa = 0 ∧ checkAssertion cfg env rs v st0 a = .ok p.st := by
+    rcases List.append_eq_cons_iff.mp hvis with ⟨hd, hp'⟩ | ⟨as, hd, hp'⟩
+    · rw [hd] at h2; rw [hp'] at h1
+      unfold checkAll at h2; cases h2
+      unfold checkAll at h1
+      split at h1
+      · cases h1
+      next st' hchk =>
+        unfold checkAll at h1; cases h1
+        exact ⟨false, _, rfl, rfl, hchk⟩
+    · have has : as = [] ∧ plainOf r = [] := by
+        have := List.append_eq_nil_iff.mp hp'.symm
+        exact this
+      rw [hd, has.1] at h2; rw [has.2] at h1
+      unfold checkAll at h1; cases h1
+      unfold checkAll at h2
+      split at h2
+      · cases h2
+      next st' hchk =>
+        unfold checkAll at h2; cases h2
+        exact ⟨true, _, rfl, rfl, hchk⟩
+  obtain ⟨v, st0, hz1, hz2, hchk⟩ := hfinal
+  obtain ⟨_, sa, sb, e1, e2, e3, _⟩ := checkAssertion_inv hchk
+  obtain ⟨s, hs, _, _, hno1, _, _, hse1⟩ := authnStatementOk_inv e1
+  obtain ⟨_, _, hno2, hse2, _⟩ := conditionOk_facts e2
+  obtain ⟨_, _, _, hno3, hse3⟩ := getSubject_facts e3
+  refine ⟨s, hs, ?_⟩
+  rw [ho]
+  simp only
+  rw [hno3, hse3, hno2, hse2, hse1, hno1]
+  simp only [hz1, hz2]
+  cases hb : (a.conditions.bind (·.nooa)) with
+  | none =>
+    cases hsn : s.sessionNooa with
+    | none => simp
+    | some t =>
+      by_cases ht : t > 0
+      · have : t ≠ 0 := by omega
+        simp [ht, this]
+      · by_cases ht0 : t = 0
+        · simp [ht0]
+        · simp [ht0, ht]
+  | some u =>
+    cases hsn : s.sessionNooa with
+    | none => simp
+    | some t =>
+      by_cases ht : t > 0
+      · have : t ≠ 0 := by omega
+        simp [ht, this]
+      · by_cases ht0 : t = 0
+        · simp [ht0]
+        · simp [ht0, ht]
+
+/-- The model's outcome always satisfies the soundness half of the decidable specification. -/
+theorem C05_model_meets_spec_sound (cfg : Cfg) (env : Env) (r : Response) :
+    specC05Sound cfg env r (process cfg env r) = true := by
+  unfold specC05Sound
+  cases hres : process cfg env r with
+  | noIdentity => rfl
+  | rejected e => rfl
+  | identity o =>
+    simp only [Bool.and_eq_true]
+    refine ⟨⟨C05_stale_instant hres, List.all_eq_true.mpr (fun a ha => C05_windows hres a ha)⟩, ?_⟩
+    cases hlen : (visible r).length != 1 with
+    | true => simp
+    | false =>
+      simp only [Bool.false_or]
+      have hl : (visible r).length = 1 := by simpa using hlen
+      obtain ⟨a, ha⟩ := List.length_eq_one_iff.mp hl
+      obtain ⟨s, hs, hexp⟩ := C05_reported_expiry hres ha
+      unfold expectedExpiry
+      rw [ha]
+      simp only [hs]
+      cases hsn : s.sessionNooa with
+      | some t =>
+        simp only
+        rw [hexp, hsn]
+        by_cases ht : t > 0
+        · simp [ht]
+        · have : t ≤ 0 := by omega
+          simp [this]
+      | none =>
+        simp only
+        rw [hexp, hsn]
+        cases hc : a.conditions.bind (·.nooa) with
+        | none => rfl
+        | some u => simp
+
+/-- Completeness half, FULL statement (not proved yet at this revision; see DESIGN.md):
+    strictly inside all windows, an otherwise valid Response is accepted. -/
+def C05_inside_accepted_full : Prop :=
+  ∀ (cfg : Cfg) (env : Env) (r : Response),
+    (process cfg env (sanitiseTimes env r)).isIdentity = true → strictlyInside cfg env r = true →
+    (process cfg env r).isIdentity = true
+
+/-! Non-vacuity -/
+private def okAssertion : Assertion :=
+  { conditions := some { nb := some 90, nooa := some 200, audiences := [["me"]] },
+    authn := [{ sessionIndex := some "s", sessionNooa := some 500 }],
+    subject := some { nameId := some "n", confs := [{ method := .bearer, data := some { nooa := some 200, recipient := some "u", irt := some "r1" } }] } }
+private def okResp : Response :=
+  { sig := .valid, issueInstant := 100, destination := some "u", inResponseTo := some "r1", assertions := [okAssertion] }
+private def okCfg : Cfg := { entityId := "me", returnAddrs := ["u"], skew := 60 }
+private def okEnv (now : Int) : Env := { now := now, outstanding := [("r1", "/x")] }
+
+example : ∃ o, process okCfg (okEnv 100) okResp = .identity o ∧ o.notOnOrAfter = 500 :=
+  ⟨{ nameId := some "n", issuer := "", cameFrom := some "/x", notOnOrAfter := 500, sessionIndex := some "s", cached := true },
+   by decide, by decide⟩
+example : process okCfg (okEnv 260) okResp = .identity
+  { nameId := some "n", issuer := "", cameFrom := some "/x", notOnOrAfter := 500, sessionIndex := some "s", cached := true } := by decide
+example : process okCfg (okEnv 261) okResp = .rejected .expired := by decide
+example : process okCfg (okEnv 29) okResp = .rejected .premature := by decide
+
 end C05
